@@ -178,6 +178,49 @@ fn check_chain(c: &LongChain<'_>, want: &[u8], what: &str) -> Result<(), String>
     if got != want {
         return Err(format!("{what}: bytes drained through chunk()/advance() {} != model {}", hex(&got), hex(want)));
     }
+    // the other readers of the Buf interface, each on its own clone: one advance() across several segments,
+    // copy_to_bytes(), chunks_vectored()
+    let k = want.len() / 2 + want.len() % 2;
+    {
+        let mut d = c.clone();
+        d.advance(k);
+        let mut rest = Vec::new();
+        let mut guard = 0;
+        while d.has_remaining() && guard < 100_000 {
+            let ch = d.chunk();
+            if ch.is_empty() {
+                return Err(format!("{what}: after advance({k}) chunk() is empty while remaining() = {}", d.remaining()));
+            }
+            rest.extend_from_slice(ch);
+            let n = ch.len();
+            d.advance(n);
+            guard += 1;
+        }
+        if rest != want[k..] || d.len() != 0 {
+            return Err(format!("{what}: after one advance({k}) the rest reads {} (len() {}), the model says {}", hex(&rest), d.len(), hex(&want[k..])));
+        }
+    }
+    {
+        let mut d = c.clone();
+        let head = d.copy_to_bytes(k);
+        let tail = d.copy_to_bytes(want.len() - k);
+        if head.as_ref() != &want[..k] || tail.as_ref() != &want[k..] || d.has_remaining() || d.len() != 0 {
+            return Err(format!("{what}: copy_to_bytes({k}) / copy_to_bytes(rest) gave {} / {}, {} bytes left; the model says {}", hex(head.as_ref()), hex(tail.as_ref()), d.remaining(), hex(want)));
+        }
+    }
+    {
+        let mut io = [std::io::IoSlice::new(&[]); 48];
+        let n = c.chunks_vectored(&mut io);
+        let mut cat = Vec::new();
+        for s in &io[..n.min(48)] {
+            cat.extend_from_slice(s);
+        }
+        // (the Buf contract lets an implementation hand out fewer slices than it has - the default is just the first chunk -
+        // so only "a non-empty prefix while bytes remain" is demanded)
+        if n > 48 || !want.starts_with(&cat) || (!want.is_empty() && (n == 0 || cat.is_empty())) {
+            return Err(format!("{what}: chunks_vectored() filled {n} slices reading {}, the model says {}", hex(&cat), hex(want)));
+        }
+    }
     Ok(())
 }
 
@@ -471,7 +514,48 @@ fn cow_twins(stats: &mut Stats, rng: &mut Rng64) {
     for _ in 0..rng.below(6) {
         let l = model.len();
         let at = rng.below(l as u64 + 1) as usize;
-        match rng.below(4) {
+        match rng.below(8) {
+            // the `Buf` view of the value (what a parser reading from it uses): the bytes handed out are gone afterwards
+            4 => {
+                let (a, b) = (t.copy_to_bytes(at), s.copy_to_bytes(at));
+                let want: Vec<u8> = model.drain(..at).collect();
+                if a.as_ref() != want.as_slice() || b.as_ref() != want.as_slice() {
+                    fail("copy_to_bytes", format!("copy_to_bytes({at}) returned {} / {} != {}", hex(a.as_ref()), hex(b.as_ref()), hex(&want)));
+                }
+            }
+            5 => {
+                if l > 0 {
+                    let (a, b) = (t.get_u8(), s.get_u8());
+                    let want = model.remove(0);
+                    if a != want || b != want {
+                        fail("get_u8", format!("get_u8 returned {a:02x} / {b:02x}, the first byte is {want:02x}"));
+                    }
+                }
+            }
+            6 => {
+                let (mut a, mut b) = (vec![0u8; at], vec![0u8; at]);
+                t.copy_to_slice(&mut a);
+                s.copy_to_slice(&mut b);
+                let want: Vec<u8> = model.drain(..at).collect();
+                if a != want || b != want {
+                    fail("copy_to_slice", format!("copy_to_slice({at}) filled {} / {} != {}", hex(&a), hex(&b), hex(&want)));
+                }
+            }
+            7 => {
+                let mut got: [Vec<u8>; 2] = [vec![], vec![]];
+                {
+                    let mut tk = Buf::take(&mut t, at);
+                    got[0] = tk.copy_to_bytes(tk.remaining()).to_vec();
+                }
+                {
+                    let mut tk = Buf::take(&mut s, at);
+                    got[1] = tk.copy_to_bytes(tk.remaining()).to_vec();
+                }
+                let want: Vec<u8> = model.drain(..at).collect();
+                if got[0] != want || got[1] != want {
+                    fail("take", format!("take({at}) drained {} / {} != {}", hex(&got[0]), hex(&got[1]), hex(&want)));
+                }
+            }
             0 => {
                 let (a, b) = (t.split_to(at), s.split_to(at));
                 let want: Vec<u8> = model.drain(..at).collect();
